@@ -338,3 +338,7 @@ def run(pm, ctx):
               msg='TypeScript namespace imports changed', key='C16-R4|%s' % ti.qualname)
     totality.run_pack(pm, ctx, 'C16-R5', ('stone.backends.js_helpers', 'stone.backends.js_client', 'stone.backends.js_types', 'stone.backends.tsd_helpers', 'stone.backends.tsd_types', 'stone.backends.tsd_client'),
                       True, 'the JavaScript/TypeScript backends', TOTALITY_PRECONDITIONS, (15, 6, 0))
+    ctx.import_rules(pm, 'C09', {'C09-R4'}, 'C16-R6',
+                     'get_imported_namespaces keeps a namespace referenced through data types, '
+                     'aliases or annotation types (shared with C09-R4)', only=lambda o:
+                     'get_imported_namespaces' in o['instance'] or 'ApiNamespace' in o['where'])
